@@ -185,6 +185,12 @@ namespace
             return {};
         }
     }
+    // The operator tables are unordered maps hashed over type ids that get assigned on first use in the process:
+    // listings are put into a stable order so that they do not depend on what other runtimes did before.
+    void sort_listing(std::vector<value>& outarr)
+    {
+        std::stable_sort(outarr.begin(), outarr.end(), [](const value& l, const value& r) -> bool { return l.to_string_sqf() < r.to_string_sqf(); });
+    }
     value cmds___(runtime& runtime)
     {
         std::vector<value> outarr;
@@ -215,6 +221,7 @@ namespace
                     pair->first.right_type.to_string()
             });
         }
+        sort_listing(outarr);
         return outarr;
     }
     value cmdsimplemented___(runtime& runtime)
@@ -253,6 +260,7 @@ namespace
                     pair->first.right_type.to_string()
             });
         }
+        sort_listing(outarr);
         return outarr;
     }
     value cmdsvm___(runtime& runtime)
@@ -291,6 +299,7 @@ namespace
                     pair->first.right_type.to_string()
             });
         }
+        sort_listing(outarr);
         return outarr;
     }
     value help___string(runtime& runtime, value::cref right)
